@@ -483,6 +483,14 @@ func (p *Prog) buildState(tn string, choose func(setter string) int, will *packe
 		if mode == stateOverwrite {
 			st.Calls = append(st.Calls, s.Name()+"(other)")
 		}
+		// variadic adders are called a second time with other elements: what the first call added must survive
+		if strings.HasPrefix(s.Name(), "Add") && s.Signature.Params().Len() == 1 && s.Signature.Variadic() {
+			if a2, ok := p.abstractArg(ctx, s.Name()+"·2", s.Signature.Params().At(0).Type(), variant+2); ok {
+				if _, ok := ctx.evalPure(s, []sv{args[0], a2}, nil, 0); !ok {
+					return nil, "cannot evaluate " + s.Name() + " (second call): " + ctx.why
+				}
+			}
+		}
 		// single-element adders are applied twice, so that lists have two elements
 		if strings.HasPrefix(s.Name(), "Add") && s.Signature.Params().Len() == 1 && !s.Signature.Variadic() {
 			if a2, ok := p.abstractArg(ctx, s.Name(), s.Signature.Params().At(0).Type(), variant+1); ok {
@@ -619,16 +627,18 @@ func (p *Prog) encoderTrace(st *packetState, fill *ssa.Function) ([]layoutEvent,
 // ---------- decoder replay ----------
 
 type replayResult struct {
-	Err        sv
-	Consumed   int
-	Mem        map[string]sv
-	Maps       map[string][]mapEntry
-	Recv       string
-	Why        string // evaluation failure
-	Mismatch   string // kind mismatch between token and destination
-	BoolAsByte string // a boolean token of the specification was consumed by this plain byte decoder
-	Read       int64  // bytes ReadPacket took from the stream
-	Frame      int64  // size of the frame offered: 1 + size of the remaining-length field + remaining length
+	Err           sv
+	Consumed      int
+	Mem           map[string]sv
+	Maps          map[string][]mapEntry
+	Recv          string
+	Why           string // evaluation failure
+	Mismatch      string // kind mismatch between token and destination
+	BoolAsByte    string // a boolean token of the specification was consumed by this plain byte decoder
+	AnyConsumedBy string // a decoder read the bytes that follow an identifier which should have been rejected
+	OverRead      int64  // bytes ReadPacket asked for after it had read the whole frame
+	Read          int64  // bytes ReadPacket took from the stream
+	Frame         int64  // size of the frame offered: 1 + size of the remaining-length field + remaining length
 }
 
 func (p *Prog) isWireDecoder(fn *ssa.Function) bool {
@@ -801,6 +811,7 @@ func (p *Prog) decoderReplay(tn string, header sv, toks []wireToken, total int64
 				bodyRead = true
 				return []sv{{k: 'i', i: total}, eof}, true, true
 			case bodyRead:
+				res.OverRead += n // a read after the frame: in a stream this takes bytes of the next frame
 				return []sv{{k: 'i', i: 0}, eof}, true, true
 			}
 			return nil, true, c.fail("a read of %d byte(s) at stream position %d straddles the fixed header and the body (body length %d)", n, spos, total)
@@ -837,6 +848,41 @@ func (p *Prog) decoderReplay(tn string, header sv, toks []wireToken, total int64
 		}
 		want := tk.Kind
 		compat := dk == want || want == "byte" && (dk == "bool" || dk == "byte") || want == "bool" && (dk == "byte" || dk == "bool")
+		if want == "any" {
+			// bytes that whatever decoder is tried accepts (used after an identifier that must be rejected before any
+			// value is read)
+			// the decoded value is one whose width() is the token's width, so that the reader advances over exactly
+			// these bytes; a decoder whose kind cannot have that width runs out of data
+			w := tk.Width
+			var dv sv
+			okW := true
+			switch dk {
+			case "byte", "ident":
+				dv, okW = sv{k: 'i'}, w == 1
+			case "bool":
+				dv, okW = sv{k: 'b'}, w == 1
+			case "u16":
+				dv, okW = sv{k: 'i'}, w == 2
+			case "u32":
+				dv, okW = sv{k: 'i'}, w == 4
+			case "vbi":
+				dv, okW = sv{k: 'i', i: []int64{0, 0, 128, 16384, 2097152}[w%5]}, w >= 1 && w <= 4
+			case "lp":
+				dv, okW = sv{k: 's', i: w - 2, addr: "spec:any"}, w >= 2
+			case "raw":
+				dv = sv{k: 's', i: w, addr: "spec:any"}
+			default:
+				okW = false
+			}
+			if !okW {
+				return []sv{missing}, true, true
+			}
+			c.mem[args[0].addr] = dv
+			pos++
+			offs += tk.Width
+			res.AnyConsumedBy = typeStr(pt.Elem())
+			return []sv{{k: 'z'}}, true, true
+		}
 		if !compat {
 			if res.Mismatch == "" {
 				res.Mismatch = fmt.Sprintf("token %d (%s, %s) is read as %s (%s)", pos, tk.Kind, tk.What, typeStr(pt.Elem()), dk)
@@ -1084,12 +1130,13 @@ func (p *Prog) observe(tn string, recv string, mem map[string]sv, maps map[strin
 // ---------- state enumeration ----------
 
 type stateSpec struct {
-	name    string
-	choose  func(string) int
-	will    int   // 0 none, 1 will with content
-	bias    int64 // > 0: every string/binary length and every integer argument is this boundary value (clamped to the parameter's type)
-	qos     int64 // > 0: SetQoS is called with this value (3: malformed but constructible)
-	intOnly bool  // the bias applies to integer arguments only
+	name      string
+	choose    func(string) int
+	will      int   // 0 none, 1 will with content
+	bias      int64 // > 0: every string/binary length and every integer argument is this boundary value (clamped to the parameter's type)
+	qos       int64 // > 0: SetQoS is called with this value (3: malformed but constructible)
+	intOnly   bool  // the bias applies to integer arguments only
+	emptyList bool  // the payload list (filters, reason codes) stays empty
 }
 
 // boundaryValues: the boundary lengths named by the properties' quantifiers (C01: 0, 1, 127, 128, 16 383, 16 384,
@@ -1146,6 +1193,48 @@ func (p *Prog) boundaryValues() []int64 {
 	return out
 }
 
+// bigCompareConstants: integer constants of 65 535 and above that a comparison in package mq tests a value against
+// (and their neighbours): a presence guard such as `v <= 268435460` is then evaluated on both sides.
+func (p *Prog) bigCompareConstants() []int64 {
+	if v, ok := p.cache["bigcmp"]; ok {
+		return v.([]int64)
+	}
+	set := map[int64]bool{}
+	for _, fn := range p.AllFuncs() {
+		for _, b := range fn.Blocks {
+			for _, ins := range b.Instrs {
+				bo, ok := ins.(*ssa.BinOp)
+				if !ok {
+					continue
+				}
+				switch bo.Op {
+				case token.LSS, token.LEQ, token.GTR, token.GEQ, token.EQL, token.NEQ:
+				default:
+					continue
+				}
+				for _, o := range []ssa.Value{bo.X, bo.Y} {
+					if k, isC := constInt(o); isC && k >= 65535 && k < 1<<33 {
+						set[k-1], set[k], set[k+1] = true, true, true
+					}
+				}
+			}
+		}
+	}
+	for _, k := range []int64{0xFFFFFF, 0x1000000, 268435455, 268435456, 1<<31 - 1, 1 << 31, 1<<32 - 1} {
+		delete(set, k)
+	}
+	var out []int64
+	for k := range set {
+		out = append(out, k)
+	}
+	sort.Slice(out, func(i, j int) bool { return out[i] < out[j] })
+	if len(out) > 12 {
+		out = out[:12]
+	}
+	p.cache["bigcmp"] = out
+	return out
+}
+
 // buildStateSpec: buildState under the spec's boundary bias.
 func (p *Prog) buildStateSpec(tn string, spec stateSpec, choose func(string) int, will *packetState) (*packetState, string) {
 	if choose == nil {
@@ -1158,6 +1247,10 @@ func (p *Prog) buildStateSpec(tn string, spec stateSpec, choose func(string) int
 	if spec.intOnly {
 		p.cache["biasintonly"] = true
 		defer delete(p.cache, "biasintonly")
+	}
+	if spec.emptyList {
+		p.cache["emptylist"] = true
+		defer delete(p.cache, "emptylist")
 	}
 	if spec.qos > 0 {
 		p.cache["forceqos"] = spec.qos
@@ -1209,6 +1302,9 @@ func (p *Prog) stateSpecs(tn string) []stateSpec {
 			return func(n string) int {
 				if n == "SetWill" {
 					if w == 3 {
+						if v := f(n); v >= stateOverwrite && v < stateClear {
+							return v // the minimal will replaces a full one
+						}
 						return 0
 					}
 					if w == 1 {
@@ -1219,8 +1315,12 @@ func (p *Prog) stateSpecs(tn string) []stateSpec {
 					}
 					return -1
 				}
-				// MQTT domain: payload lists are never empty
+				// MQTT domain: payload lists are never empty (C10 also covers the malformed-but-constructible
+				// packet without any filter / reason code)
 				if payloadList[tn] == n {
+					if el, _ := p.cache["emptylist"].(bool); el {
+						return -1
+					}
 					if v := f(n); v >= 0 {
 						return v
 					}
@@ -1242,12 +1342,14 @@ func (p *Prog) stateSpecs(tn string) []stateSpec {
 		out = append(out, stateSpec{name: "all" + wtag, choose: pick(func(string) int { return 0 }), will: w})
 		out = append(out, stateSpec{name: "all(variant)" + wtag, choose: pick(func(string) int { return 1 }), will: w})
 		if w == 3 {
-			continue // the minimal will is combined with the three basic states only
+			// … and once as the replacement of a will that had everything (what the first one left behind must go)
+			out = append(out, stateSpec{name: "all, each setter called twice (other value first)" + wtag, choose: pick(func(string) int { return stateOverwrite }), will: w})
+			continue // the minimal will is combined with these basic states only
 		}
 		for _, bv := range p.boundaryValues() {
 			out = append(out, stateSpec{name: fmt.Sprintf("all, lengths and integers at the boundary value %d", bv) + wtag, choose: pick(func(string) int { return 0 }), will: w, bias: bv})
 		}
-		for _, bv := range []int64{0xFFFFFF, 0x1000000, 268435455} {
+		for _, bv := range append([]int64{0xFFFFFF, 0x1000000, 268435455, 268435456, 1<<31 - 1, 1 << 31, 1<<32 - 1}, p.bigCompareConstants()...) {
 			// integer boundaries above the string limit (subscription identifiers reach 268 435 455; 32-bit fields)
 			out = append(out, stateSpec{name: fmt.Sprintf("all, integers at the boundary value %d", bv) + wtag, choose: pick(func(string) int { return 0 }), will: w, bias: bv, intOnly: true})
 		}
@@ -1350,7 +1452,16 @@ func (p *Prog) stateSpecs(tn string) []stateSpec {
 // willState: a Publish prepared as will message (content, QoS 1, retain).
 // willFor: the will message state a state spec asks for (1: every will field set; 3: topic only).
 func (p *Prog) willFor(spec stateSpec) (*packetState, string) {
-	key := fmt.Sprintf("willstate:%d", spec.will)
+	key := fmt.Sprintf("willstate:%d:%d:%v", spec.will, spec.bias, spec.intOnly)
+	if spec.bias > 0 {
+		// the will message of a boundary state is built at the same boundary (lengths ≥ 128 inside the will)
+		p.cache["lenbias"] = spec.bias
+		defer delete(p.cache, "lenbias")
+		if spec.intOnly {
+			p.cache["biasintonly"] = true
+			defer delete(p.cache, "biasintonly")
+		}
+	}
 	type cached struct {
 		st  *packetState
 		why string
